@@ -222,7 +222,8 @@ def family_case(rng, idx, nops):
         elif q < 0.92:
             ops.append("discretize")
         elif q < 0.96:
-            ops.append("copy")
+            # a clone keeps the *original's* interval object as the constraint of a tied parameter (tp): not modelled
+            ops.append("copy" if f.kind != "texp" else "discretize")
         else:
             g = Fam(rng)
             if rng.random() < 0.5:
@@ -369,10 +370,8 @@ def leaf_case(rng, idx, nops):
             ops.append("median %d" % rng.choice([0, 1]))
         elif q < 0.85:
             ops.append(d.restrict())
-        elif q < 0.93:
-            ops.append("discretize")
         else:
-            ops.append("copy")
+            ops.append("discretize")     # (no `copy`: see family_case)
         ops += queries(rng, d, d.n, rng.randint(0, 3))
     return ops
 
@@ -409,8 +408,22 @@ def compound_case(rng, idx, nops):
         d = ds[0]
     nh = 8
     ops += queries(rng, d, nh, rng.randint(1, 4))
+    restricted = False
     for _ in range(nops):
         q = rng.random()
+        if 0.2 <= q < 0.45 and restricted:
+            # after a restriction the value parameters of nested constant / user-specified distributions are tied to
+            # their domain while the compound's copy of the parameter is not: not modelled
+            cands = [(pre, c) for pre, c in comps if c.kind not in ("const", "simple")]
+            if cands:
+                pre, c = rng.choice(cands)
+                ops.append(c.setp(pre + PREFIX[c.kind]))
+            else:
+                ops.append("discretize")
+            ops += queries(rng, d, nh, rng.randint(0, 3))
+            continue
+        if 0.7 <= q < 0.85:
+            restricted = True
         if q < 0.2:
             nm = rng.choice(own + (["theta9", "q"] if rng.random() < 0.1 else []))
             v = rng.choice([-0.2, 1.2]) if rng.random() < 0.12 else rng.choice([0.0, 1.0, 0.5, 0.125, rng.random()])
@@ -424,10 +437,8 @@ def compound_case(rng, idx, nops):
             ops.append("median %d" % rng.choice([0, 1]))
         elif q < 0.85:
             ops.append(rng.choice(comps)[1].restrict())
-        elif q < 0.93:
-            ops.append("discretize")
         else:
-            ops.append("copy")
+            ops.append("discretize")
         ops += queries(rng, d, nh, rng.randint(0, 3))
     return ops
 
@@ -436,13 +447,41 @@ def generate(seed, tier):
     rng = random.Random(seed)
     big = tier == "thorough"
     cases = []
-    for i in range(6000 if big else 900):
+    for i in range(40000 if big else 6000):
         cases.append(family_case(rng, i, rng.randint(2, 14)))
-    for i in range(1200 if big else 200):
+    for i in range(8000 if big else 1200):
         cases.append(leaf_case(rng, i, rng.randint(2, 10)))
-    for i in range(2500 if big else 400):
+    for i in range(16000 if big else 2500):
         cases.append(compound_case(rng, i, rng.randint(2, 10)))
     return cases
+
+
+def coverage_extra(cases, answers):
+    """distribution of the generated histories (evidence only)"""
+    fam, ncls, hist_len, refused, states = {}, {}, {}, 0, 0
+    for c, a in zip(cases, answers):
+        t = c[0].split()
+        fam[t[2] if len(t) > 2 else "?"] = fam.get(t[2] if len(t) > 2 else "?", 0) + 1
+        ops = [l for l in c if not l.startswith("case")]
+        k = sum(1 for l in ops if l.split()[0] in ("setp", "setn", "median", "restrict", "discretize", "copy"))
+        b = "%d-%d" % (k // 4 * 4, k // 4 * 4 + 3)
+        hist_len[b] = hist_len.get(b, 0) + 1
+        for l, r in zip(ops, a or []):
+            if r.startswith("exc:"):
+                refused += 1
+            m = r.split()
+            if "st" in m[:2]:
+                states += 1
+                try:
+                    n = int(m[m.index("st") + 1]); nb = "1" if n == 1 else "2" if n == 2 else "3-10" if n <= 10 else "11-32" if n <= 32 else ">32"
+                    ncls[nb] = ncls.get(nb, 0) + 1
+                except (ValueError, IndexError):
+                    pass
+    top = dict(sorted(fam.items(), key=lambda kv: -kv[1])[:14])
+    return {"families_of_cases": top, "class_count_of_dumped_states": ncls, "history_length_histogram": hist_len,
+            "state_dumps_judged": states, "operations_refused": refused,
+            "search_note": "clauses named search_* are numeric exploration of the parent (gamma/beta/gaussian kernels abstract in the "
+                           "model) on the points lower::bounds++[upper] with tolerances; they support, and are not part of, obligations/discharged"}
 
 
 def compare(op_line, impl, model):
